@@ -18,7 +18,7 @@ WEIGHTS = [("hostile", 3), ("multi", 3), ("event", 2), ("fastlat", 2), ("recorde
 def plan(tier, seed):
     cases = _sim.plan_profiles(tier, seed, WEIGHTS, 4000, 60000)
     n = 1500 if tier == "quick" else 40000
-    cases += [{"mode": "live_walk", "seed": seed, "idx": i, "cfg": {"n": 1 + i % 3, "async": i % 4 == 3}, "len": 9 + i % 6} for i in range(n)]
+    cases += [{"mode": "live_walk", "seed": seed, "idx": i, "cfg": {"n": 1 + i % 3, "async": i % 4 == 3, "hc": i % 7 == 3, "ext": i % 2 == 1, "sp": (i // 2) % 4 if i % 6 == 5 else 0}, "len": 9 + i % 6} for i in range(n)]
     cases += [{"mode": "paper_walk", "seed": seed, "idx": i, "len": 40 + i % 50} for i in range(300 if tier == "quick" else 6000)]
     # adoptions from the order stream for strategies registered at different times (before the first update, between updates)
     return cases + [{"mode": "adoption", "seed": seed, "idx": i} for i in range(200 if tier == "quick" else 4000)]
